@@ -76,6 +76,7 @@ fn key_spec(r: &mut Rng, key: Key) -> KeySpec {
 }
 
 pub fn run_one(h: &mut H, r: &mut Rng, prof: &Profile) {
+    h.conv_faults = prof.faults;
     h.op_reset();
     if guard(|| run_body(h, r, prof)).is_err() {
         h.crash("escaped_panic");
@@ -118,7 +119,7 @@ fn run_body(h: &mut H, r: &mut Rng, prof: &Profile) {
             for k in 0..n {
                 let p: Vec<i64> = (0..32).map(|i| (payload + k as i64) * 100 + i).collect();
                 h.begin("create");
-                h.op_create(wi, ai, &p, r.below(4) as u8, r.chance(35));
+                h.op_create(wi, ai, &p, r.below(7) as u8, r.chance(35));
             }
             payload += 30;
         } else if c < 30 {
@@ -128,7 +129,7 @@ fn run_body(h: &mut H, r: &mut Rng, prof: &Profile) {
             let n = 32;
             let p: Vec<i64> = (0..n).map(|i| payload * 100 + i).collect();
             h.begin("create");
-            h.op_create(wi, ai, &p, r.below(4) as u8, r.chance(35));
+            h.op_create(wi, ai, &p, r.below(7) as u8, r.chance(35));
         } else if c < 52 {
             let k = pick_key(h, r, wi);
             let ks = key_spec(r, k);
@@ -215,7 +216,7 @@ fn run_body(h: &mut H, r: &mut Rng, prof: &Profile) {
                 }
                 let p: Vec<i64> = (0..32).map(|i| payload * 100 + i).collect();
                 h.begin("create");
-                h.op_create(wi, ai, &p, r.below(4) as u8, r.chance(50));
+                h.op_create(wi, ai, &p, r.below(7) as u8, r.chance(50));
             }
         } else if c < 98 {
             let scope = if r.chance(50) { None } else { Some(r.below(NARCH as u64) as usize) };
